@@ -59,7 +59,7 @@ func fp(f float64) *float64 { return &f }
 func bp(b bool) *bool       { return &b }
 
 // queries of the request family
-func queries(r *mc.Run) []*ref.Q {
+func queries(full bool) []*ref.Q {
 	qs := []*ref.Q{
 		{Kind: "all"},
 		{Kind: "term", Field: "k", Text: "x"},
@@ -67,7 +67,7 @@ func queries(r *mc.Run) []*ref.Q {
 		{Kind: "disj", DMin: 1, Subs: []*ref.Q{{Kind: "term", Field: "k", Text: "y"}, {Kind: "term", Field: "t", Text: "q"}}},
 		{Kind: "boolean", Must: []*ref.Q{{Kind: "all"}}, MustNot: []*ref.Q{{Kind: "term", Field: "k", Text: "x"}}},
 	}
-	if !r.Quick() {
+	if full {
 		qs = append(qs,
 			&ref.Q{Kind: "none"},
 			&ref.Q{Kind: "docid", IDs: []string{"e", "zz", "a", "d"}},
@@ -92,7 +92,7 @@ func fld(name string, desc bool, typ search.SortFieldType, missFirst bool) *sear
 	return sf
 }
 
-func sorts(r *mc.Run) []sortSpec {
+func sorts(full bool) []sortSpec {
 	id := func(desc bool) search.SearchSort { return &search.SortDocID{Desc: desc} }
 	ss := []sortSpec{
 		{"_id", func() search.SortOrder { return search.SortOrder{id(false)} }, true},
@@ -107,7 +107,7 @@ func sorts(r *mc.Run) []sortSpec {
 			return search.SortOrder{fld("n", true, search.SortFieldAsNumber, false), id(true)}
 		}, true},
 	}
-	if !r.Quick() {
+	if full {
 		ss = append(ss,
 			sortSpec{"-k:string,_id", func() search.SortOrder {
 				return search.SortOrder{fld("k", true, search.SortFieldAsString, false), id(false)}
@@ -323,7 +323,8 @@ type ctx struct {
 
 type engineCfg struct {
 	name   string
-	n      int // corpus size
+	n      int  // corpus size
+	full   bool // full request family (thorough) or the quick one
 	oracle bx.Engine
 	shard  [nShards]bx.Engine
 }
@@ -481,8 +482,8 @@ func compare(exp, got *rendered, sizeZero bool, mode string, add func(what, deta
 	}
 }
 
-func newCtx(r *mc.Run, n int) *ctx {
-	c := &ctx{r: r, docs: corpusAll[:n], qs: queries(r), ss: sorts(r)}
+func newCtx(r *mc.Run, n int, full bool) *ctx {
+	c := &ctx{r: r, docs: corpusAll[:n], qs: queries(full), ss: sorts(full)}
 	for i := 0; i <= n+1; i++ {
 		c.froms = append(c.froms, i)
 		c.sizes = append(c.sizes, i)
@@ -494,14 +495,14 @@ func newCtx(r *mc.Run, n int) *ctx {
 
 func Run(r *mc.Run) {
 	sc, ud := bx.MemEngines[0], bx.MemEngines[1]
-	// the corpus size is part of the configuration: the 6-document corpus is run on scorch, the
-	// other member engines on the 5-document corpus (3^6 × the thorough request family × 3 engines
-	// would not fit the time box)
-	cfgs := []engineCfg{{"scorch", mc.Pick(r, 5, 6), sc, [nShards]bx.Engine{sc, sc, sc}}}
+	// corpus size and request family are part of the configuration: the 6-document corpus with
+	// the full family is run on scorch members, the other member engines on the 5-document corpus
+	// with the quick family (3^6 × the full family × 3 engine configurations does not fit the time box)
+	cfgs := []engineCfg{{"scorch", mc.Pick(r, 5, 6), !r.Quick(), sc, [nShards]bx.Engine{sc, sc, sc}}}
 	if !r.Quick() {
 		cfgs = append(cfgs,
-			engineCfg{"upsidedown", 5, ud, [nShards]bx.Engine{ud, ud, ud}},
-			engineCfg{"mixed(scorch,upsidedown,scorch)", 5, sc, [nShards]bx.Engine{sc, ud, sc}})
+			engineCfg{"upsidedown", 5, false, ud, [nShards]bx.Engine{ud, ud, ud}},
+			engineCfg{"mixed(scorch,upsidedown,scorch)", 5, false, sc, [nShards]bx.Engine{sc, ud, sc}})
 	}
 	pow := func(n int) int {
 		p := 1
@@ -510,11 +511,15 @@ func Run(r *mc.Run) {
 		}
 		return p
 	}
-	c0 := newCtx(r, cfgs[0].n)
+	c0 := newCtx(r, cfgs[0].n, cfgs[0].full)
 	n := cfgs[0].n
 	var cfgNames []string
 	for _, cfg := range cfgs {
-		cfgNames = append(cfgNames, fmt.Sprintf("%s:%d documents:%d assignments", cfg.name, cfg.n, pow(cfg.n)))
+		fam := "quick request family (5 queries × 5 sorts)"
+		if cfg.full {
+			fam = "full request family"
+		}
+		cfgNames = append(cfgNames, fmt.Sprintf("%s: %d documents, %d assignments, %s", cfg.name, cfg.n, pow(cfg.n), fam))
 	}
 	r.Rule(fmt.Sprintf("E2: every assignment of a corpus (ids; keyword k with duplicates/absent; numeric n with duplicates/absent; date d; multi-valued keyword t) to %d shards, empty and skewed shards included (member engines and corpus sizes: %v) × alias shapes {flat, alias(alias(s0,s1),s2), alias(alias(s0),alias(s1,s2)), two-member alias when s2 is empty, alias(alias(s0)) when s0 holds everything} × %d queries × %d score-independent total sorts × every From∈[0,%d] × Size∈[0,%d]∪{11} page × SearchAfter and SearchBefore from every hit of the full listing (keys = the alias's own DecodedSort values, sizes %v), every request with Fields=* and 4–7 facets (terms with size ≥ buckets, prefix-filtered terms, overlapping/open/empty numeric ranges, date ranges, two equally-bounded ranges under different names); oracle = the same request on one in-memory index of the same engine holding the whole corpus: Total, ordered ids, stored fields, facet buckets and Total/Missing/Other; an outcome is (mode, query, Total, number of hits)",
 		nShards, cfgNames, len(c0.qs), len(c0.ss), n+1, n+1, c0.afterSizes))
@@ -544,7 +549,7 @@ func Run(r *mc.Run) {
 			r.Cap("deadline before engine configuration " + cfg.name)
 			break
 		}
-		c := newCtx(r, cfg.n)
+		c := newCtx(r, cfg.n, cfg.full)
 		nAssign := pow(cfg.n)
 		single := cfg.oracle.Mk(m)
 		for _, d := range c.docs {
